@@ -8,7 +8,8 @@ import (
 
 func TestReplay(t *testing.T) {
 	verif.ReplayMain(map[string]func(){
-		"HarnessEndToEnd":   HarnessEndToEnd,
-		"HarnessServerWire": HarnessServerWire,
+		"HarnessEndToEnd":    HarnessEndToEnd,
+		"HarnessManyStreams": HarnessManyStreams,
+		"HarnessServerWire":  HarnessServerWire,
 	})
 }
